@@ -1192,7 +1192,7 @@ var combos = []combo{
 	{"VarExp+PathSep", true, true, []ucfg.Option{ucfg.VarExp, ucfg.PathSep(".")}},
 }
 
-const tmpRoot = "/verif/work/C18tmp"
+func tmpRootDir() string { return filepath.Join(harness.Root, "work", "C18tmp") }
 
 var fileStems = []string{"doc", "doc", "my conf", "cfg-ü", "a.b", "x(1)"}
 
@@ -1281,6 +1281,7 @@ func (check) Run(seed int64, tier string, idx int, verbose bool) harness.Result 
 	}
 	res.Ev("documents", 1)
 
+	tmpRoot := tmpRootDir()
 	if err := os.MkdirAll(tmpRoot, 0o755); err != nil {
 		res.Inconc("cannot create %s: %v", tmpRoot, err)
 		return res.Done()
